@@ -132,17 +132,75 @@ def o_predict(Xn, W, xshape, yshape):
     return out
 
 
-def prove_same(E, name, A, B):
-    """array equality; symbolic mode tries the engine's context-free identity test on every entry first (rational-function
-    normal form / context-free z3 query, the same procedure that interns root atoms): an identity that holds without any
-    hypothesis holds on every path.  Falls back to the ordinary validity query under the path condition."""
+class Congruence:
+    """cheap identity proofs between two runs of the same code on inputs that differ only before centring.
+
+    pairs (e1, e2): corresponding centred entries of run 1 / run 2, built in the harness with the same backend operations
+    as the code (so they are the very z3 terms that occur inside the code's results).  Each pair is first proved equal
+    (linear identity).  Then  a == b  is established by replacing e1 and e2 by one fresh variable k in both terms and
+    comparing the results syntactically: a = f(e1), b = g(e2), f and g syntactically equal, e1 == e2  =>  a == b."""
+
+    def __init__(self, E):
+        self.E = E
+        self.subs = []
+        self.ok = True
+        self.n = 0
+
+    def add_pairs(self, A1, A2):
+        if not self.E.symbolic:
+            return
+        import z3
+        from vt import sym
+
+        a1 = np.asarray(A1, dtype=object).ravel()
+        a2 = np.asarray(A2, dtype=object).ravel()
+        assert a1.shape == a2.shape
+        for x, y in zip(a1, a2):
+            tx, ty = sym.term(x), sym.term(y)
+            if not sym.CTX.identical(tx, ty):
+                self.ok = False
+                continue
+            k = z3.Real(f"cen!{self.n}")
+            self.n += 1
+            self.subs.append((tx, k))
+            if not ty.eq(tx):
+                self.subs.append((ty, k))
+
+    def same(self, x, y):
+        import z3
+        from vt import sym
+
+        tx, ty = sym.term(x), sym.term(y)
+        if tx.eq(ty):
+            return True
+        if not self.subs:
+            return False
+        sx, sy = z3.substitute(tx, *self.subs), z3.substitute(ty, *self.subs)
+        if sx.eq(sy):
+            return True
+        return z3.simplify(sx).eq(z3.simplify(sy))
+
+
+def prove_same(E, name, A, B, cong=None):
+    """array equality; symbolic mode tries (1) the congruence argument above, (2) the engine's context-free identity test
+    (rational-function normal form / context-free z3 query, the procedure that interns root atoms) on every entry: an
+    identity that holds without any hypothesis holds on every path.  Falls back to the ordinary validity query."""
     if E.symbolic:
         from vt import sym
 
         a = np.asarray(A, dtype=object)
         b = np.asarray(B, dtype=object)
-        if a.shape == b.shape and all(sym.CTX.identical(sym.term(x), sym.term(y)) for x, y in zip(a.ravel(), b.ravel())):
-            return E.prove(name, True)
+        if a.shape == b.shape:
+            ok = True
+            for x, y in zip(a.ravel(), b.ravel()):
+                if cong is not None and cong.same(x, y):
+                    continue
+                if sym.CTX.identical(sym.term(x), sym.term(y)):
+                    continue
+                ok = False
+                break
+            if ok:
+                return E.prove(name, True)
     return E.prove_eq(name, A, B)
 
 
@@ -167,7 +225,11 @@ def prove_unit_norm(E, name, L):
                     G = [z3.Real(f"G!{i}") for i in range(len(g))]
                     W = z3.Real("W!")
                     lemma = z3.Implies(z3.And(W * W == sum(x * x for x in G), W != 0), sum((x / W) * (x / W) for x in G) == 1)
-                    return E.prove(name, sym.SB(lemma))
+                    E.drop_path = "all"  # generic lemma over fresh variables: no hypothesis of the path is needed
+                    try:
+                        return E.prove(name, sym.SB(lemma))
+                    finally:
+                        E.drop_path = False
     return E.prove(name, E.eq(sum(x * x for x in L), 1))
 
 
@@ -319,6 +381,32 @@ def _eager_atom_lemmas():
     c.root = root
 
 
+class _DirectLstsq:
+    """installs the exact least-squares model directly as the symbolic backend's `lstsq` (instance attribute) for the
+    duration of one harness call: the model is a deterministic function of its arguments, so the engine's argument lookup
+    (polynomial identity tests against every earlier call: minutes on these rational functions) is not needed"""
+
+    def __init__(self, E):
+        self.E = E
+
+    def __enter__(self):
+        if self.E.symbolic:
+            from vt import backend, sym
+
+            def lstsq(A, B, rcond=None):
+                return sym.sarr(_lstsq_min_norm(A, B)), None, None, None
+
+            backend._SYM.lstsq = lstsq
+        return self
+
+    def __exit__(self, *a):
+        if self.E.symbolic:
+            from vt import backend
+
+            backend._SYM.__dict__.pop("lstsq", None)
+        return False
+
+
 _VAC_DONE = set()
 
 
@@ -341,6 +429,11 @@ def _arr(E, a):
 
 
 def h_plsr(E, cfg):
+    with _DirectLstsq(E):
+        return _h_plsr(E, cfg)
+
+
+def _h_plsr(E, cfg):
     from vt import backend
 
     ns, x, ny, nc, it, inv = cfg["ns"], tuple(cfg["x"]), cfg["ny"], cfg["nc"], cfg["it"], cfg["inv"]
@@ -352,7 +445,7 @@ def h_plsr(E, cfg):
     if E.symbolic:
         # SVD (only used for the initial guess of the mode loadings): arbitrary outputs, functional by argument lookup;
         # lstsq: exact minimum-norm model (see _lstsq_min_norm)
-        backend.configure(svd=_svd_dominant_first, lstsq=_lstsq_min_norm)
+        backend.configure(svd=_svd_dominant_first)
         _eager_atom_lemmas()
     try:
         est = _plsr_fit(X, Y, nc, it)
@@ -406,11 +499,25 @@ def h_plsr(E, cfg):
         return
     XF2 = [_arr(E, f) for f in est2.X_factors]
     YF2 = [_arr(E, f) for f in est2.Y_factors]
+    cong = Congruence(E)
+    if E.symbolic:
+        def centred(A, ref):
+            A = tl.copy(tl.tensor(A))
+            R_ = tl.copy(tl.tensor(ref))
+            if tl.ndim(A) == 1:
+                A, R_ = tl.reshape(A, (-1, 1)), tl.reshape(R_, (-1, 1))
+            A -= tl.mean(R_, axis=0)
+            return A
+
+        inv_perm = [perm.index(s_) for s_ in range(ns)]
+        cong.add_pairs(centred(X, X), np.asarray(centred(X2, X2), dtype=object)[inv_perm])
+        cong.add_pairs(centred(Y, Y), np.asarray(centred(Y2, Y2), dtype=object)[inv_perm])
+        cong.add_pairs(centred(Xn, X), centred(Xn2, X2))
     for m in range(1, len(XF)):
-        prove_same(E, f"invariance/X_mode{m}_loadings_unchanged", XF2[m], XF[m])
-    prove_same(E, "invariance/Y_loadings_unchanged", YF2[1], YF[1])
-    prove_same(E, "invariance/scores_follow_the_samples", XF2[0], XF[0][list(perm)])
-    prove_same(E, "invariance/Y_scores_follow_the_samples", YF2[0], YF[0][list(perm)])
+        prove_same(E, f"invariance/X_mode{m}_loadings_unchanged", XF2[m], XF[m], cong)
+    prove_same(E, "invariance/Y_loadings_unchanged", YF2[1], YF[1], cong)
+    prove_same(E, "invariance/scores_follow_the_samples", XF2[0], XF[0][list(perm)], cong)
+    prove_same(E, "invariance/Y_scores_follow_the_samples", YF2[0], YF[0][list(perm)], cong)
     try:
         p1 = _arr(E, est.predict(Xn)) - _arr(E, est.Y_mean_).reshape(1, -1)
         p2 = _arr(E, est2.predict(tl.tensor(Xn2))) - _arr(E, est2.Y_mean_).reshape(1, -1)
@@ -418,5 +525,5 @@ def h_plsr(E, cfg):
         E.prove("predict/no_exception", False, detail=f"{type(e).__name__}: {e}")
         return
     E.prove("predict/shape", tuple(p1.shape) == (cfg["npred"], nyc) and tuple(p2.shape) == p1.shape)
-    prove_same(E, "invariance/predictions_minus_offset_unchanged", p2, p1)
-    prove_same(E, "invariance/offset_shifts_with_Y", _arr(E, est2.Y_mean_).reshape(-1), _arr(E, est.Y_mean_).reshape(-1) + np.asarray(cY, dtype=dt))
+    prove_same(E, "invariance/predictions_minus_offset_unchanged", p2, p1, cong)
+    prove_same(E, "invariance/offset_shifts_with_Y", _arr(E, est2.Y_mean_).reshape(-1), _arr(E, est.Y_mean_).reshape(-1) + np.asarray(cY, dtype=dt), cong)
